@@ -35,6 +35,26 @@ func c13Run(line string) string {
 			return "err"
 		}
 		return c13Show(u)
+	case "les", "bes":
+		// the bytes are a sub-slice of a larger buffer (spare capacity holding other data, like a
+		// field cut out of a storage record): the value must not depend on what follows the
+		// slice, and the constructor must leave the rest of the caller's buffer alone
+		if len(f) != 3 {
+			return "bad-op"
+		}
+		data, tail := vhUnhex(f[1]), vhUnhex(f[2])
+		buf := append(append(make([]byte, 0, len(data)+len(tail)), data...), tail...)
+		var u *Uint128
+		var err error
+		if f[0] == "les" {
+			u, err = NewUint128(buf[:len(data):len(buf)])
+		} else {
+			u, err = NewUint128(buf[:len(data):len(buf)], binary.BigEndian)
+		}
+		if err != nil {
+			return "err"
+		}
+		return c13Show(u) + " data=" + vhHex(buf[:len(data)]) + " tail=" + vhHex(buf[len(data):])
 	case "be":
 		u, err := NewUint128(vhUnhex(f[1]), binary.BigEndian)
 		if err != nil {
@@ -124,6 +144,19 @@ func c13Gen(r *vhRng) string {
 	case 10, 11:
 		return "scale " + vhHex(c13Val(r))
 	case 0, 1, 2:
+		if r.Chance(1, 3) {
+			op := "les "
+			if r.Chance(1, 3) {
+				op = "bes "
+			}
+			tail := r.Bytes(1 + r.Intn(24))
+			if r.Chance(1, 4) {
+				for i := range tail {
+					tail[i] = 0xff
+				}
+			}
+			return op + vhHex(c13Val(r)) + " " + vhHex(tail)
+		}
 		return "le " + vhHex(c13Val(r))
 	case 3, 4:
 		return "be " + vhHex(c13Val(r))
